@@ -29,6 +29,21 @@ NEEDS = {
  "C18-3": "derive(CanonicalSerialize) on a struct with a tuple-in-a-tuple field of >= 2 inner elements: wrong field path",
  "C18-4": "BigUint equal to zero: to_bytes_le gives one byte, size computed from bits() reports none",
  "C18-5": "isize read with a reader that returns short reads, or input truncated inside the 8 bytes",
+ "C05-6": "ChunkedPippenger: a flush followed by at least one more add (bases buffer not cleared, later chunks multiplied with the first chunk's bases)",
+ "C05-7": "short Weierstrass group, an identity base whose scalar gets a negative signed digit (Projective -= Affine rebuilt with new_unchecked loses the infinity flag)",
+ "C05-8": "plain-bucket MSM (verif-hooks), a scalar with its top bit set and a window width dividing MODULUS_BIT_SIZE-1 (secp256k1: n < 32 and n == 32; bn384: n < 32)",
+ "C09-6": "a writer that accepts fewer bytes than offered, fields of >= 2 limbs: write instead of write_all for the first N-1 limbs",
+ "C09-7": "compressed point over an Fp2 whose non-residue is not -1 (BLS12-377, MNT4) with y = (0, y1): wrong root returned silently in unchecked mode",
+ "C09-8": "the convenience method deserialize_compressed_unchecked on a curve point outside the subgroup (validates although it must not)",
+ "C10-6": "a curve with cofactor > 1 whose lowest cofactor limb is exactly 1 and the default subgroup test (BLS12-377 G2): cofactor_is_one() true, every curve point accepted",
+ "C10-7": "the encoding of the integer p itself (same slip as C09-1, found independently)",
+ "C10-8": "a point inside a derive-generated tuple struct validated through Vec/array batch_check or an explicit check(): derived Valid empty for tuple structs",
+ "C14-6": "parallel batch inversion on a pool that is not a power of two with a short input, two chunks landing on the same un-stolen split leaf (scratch buffer reused across chunks): schedule dependent",
+ "C14-7": "radix-2 domain 2^10..2^13 on a pool that is not a power of two and <= n/256 (roots table truncated by compute_powers)",
+ "C14-8": "mixed-radix domain 3^j*2^k on a pool with 2^(k+1) <= 2^floor(log2 T) and T < size (best_fft guard compares lengths): parallel build panics",
+ "C18-6": "a byte >= 2 at a boolean / Option-tag position inside Vec<bool>, [bool;N], Vec<Option<T>> (elements are read unchecked) or through an unchecked entry point",
+ "C18-7": "a VecDeque whose ring buffer has wrapped (push_front after push_back, FIFO use): only the first slice is serialized",
+ "C18-8": "GeneralEvaluationDomain holding a MixedRadix domain (field with a small subgroup, size beyond the 2-adic part): decoded as Radix2",
 }
 conf = {}
 for f in ['/verif/seeded/confirmations.txt']:
@@ -44,7 +59,7 @@ for d in sorted(glob.glob('/verif/seeded/C*')):
     caught = {p: (r['exit'] == 1 and r['VIOLATION_lines'] > 0) for p, r in cr.items()}
     meta = {
         "id": sid, "property": sid.split('-')[0], "title": title,
-        "written_by": "independent sub-agent given only the property text and its own scratch worktree (round %d)" % (1 if int(sid.split('-')[1]) <= 2 else 2),
+        "written_by": "independent sub-agent given only the property text and its own scratch worktree (round %d)" % (1 if int(sid.split('-')[1]) <= 2 else 2 if int(sid.split('-')[1]) <= 5 else 3),
         "needs_to_manifest": NEEDS.get(sid, ""),
         "files": ["patch.diff", "demo.rs", "notes.md"] + (["demo_crate/"] if os.path.isdir(d+'/demo_crate') else []) + (["example_replay.json"] if os.path.exists(d+'/example_replay.json') else []),
         "my_confirmation": conf.get(sid, "pending"),
